@@ -479,6 +479,26 @@ def local_vol_ob(aspect=None):
 
 # ------------------------------------------------------------------ dtype of every generator (finite universe, enumerated)
 
+DTYPE_REPLAY = '''
+import pfhedge.stochastic as ps
+D = getattr(torch, W["dtype"]) if W["dtype"] else None
+torch.set_default_dtype(getattr(torch, W["default"]))
+kw = {"sigma_fn": (lambda t_, s: s * 0.0 + 0.2)} if W["gen"] == "generate_local_volatility_process" else {}
+args = (2, 3) + ((kw.pop("sigma_fn"),) if kw else ())
+out = getattr(ps, W["gen"])(*args, dtype=D)
+outs = tuple(out) if isinstance(out, tuple) else (out,)
+want = D or getattr(torch, W["default"])
+result = {"got": [str(o.dtype) for o in outs], "ref": [str(want) for o in outs]}
+'''
+
+
+def _replay_dtype(gname, D, default):
+    nm = lambda d: None if d is None else str(d).replace('torch.', '')
+    r = real_exec(DTYPE_REPLAY, {'gen': gname, 'dtype': nm(D), 'default': nm(default)}, timeout=300)
+    ok = r.get('ok') and r['result']['got'] == r['result']['ref']
+    return {'real': r, 'confirmed': not ok, 'note': 'replay: the real generator called with the requested dtype under the given global default'}
+
+
 def dtype_ob():
     def check():
         t0 = time.time()
@@ -511,7 +531,7 @@ def dtype_ob():
                                 n += 1
                                 if o.dtype is not (D or default) or tuple(o._shape) != (2, 3):
                                     return Verdict('refuted', 'enumeration + promotion contract', time.time() - t0, '%s(dtype=%s) under default %s returns dtype %s shape %s' % (gname, D, default, o.dtype, o._shape),
-                                                   witness={'generator': gname, 'dtype': str(D), 'default': str(default)}, replay=_replay_gen())
+                                                   witness={'generator': gname, 'dtype': str(D), 'default': str(default)}, replay=_replay_dtype(gname, D, default))
             finally:
                 torch.set_default_dtype(torch.float32)
         return Verdict('proved', 'exhaustive enumeration (5 dtypes x 2 defaults) + promotion contract', time.time() - t0, '%d series' % n, sample={'claim': 'returned dtype = requested dtype (global default when None)', 'series': n})
